@@ -59,6 +59,9 @@ type ShipConnection struct {
 
 	shutdownOnce sync.Once
 
+	// set once CloseConnection has started to run
+	closing bool
+
 	// buffer for SPINE messages that came in before the handshake was completed
 	spineBuffer [][]byte
 
@@ -159,6 +162,10 @@ func (c *ShipConnection) AbortPendingHandshake() {
 // close this ship connection
 func (c *ShipConnection) CloseConnection(safe bool, code int, reason string) {
 	c.shutdownOnce.Do(func() {
+		// the close announce below is sent from within this sync.Once: if the transport is
+		// already gone, sending it must not try to close the connection again
+		c.setClosing()
+
 		c.stopHandshakeTimer()
 
 		// handshake is completed if approved or aborted
@@ -200,6 +207,20 @@ func (c *ShipConnection) CloseConnection(safe bool, code int, reason string) {
 
 		c.infoProvider.HandleConnectionClosed(c, handshakeEnd)
 	})
+}
+
+func (c *ShipConnection) setClosing() {
+	c.mux.Lock()
+	defer c.mux.Unlock()
+
+	c.closing = true
+}
+
+func (c *ShipConnection) isClosing() bool {
+	c.mux.Lock()
+	defer c.mux.Unlock()
+
+	return c.closing
 }
 
 var _ api.ShipConnectionDataWriterInterface = (*ShipConnection)(nil)
@@ -404,7 +425,9 @@ func (c *ShipConnection) processShipJsonMessage(message []byte, target any) erro
 // transform a SHIP model into EEBUS specific JSON
 func (c *ShipConnection) shipMessage(typ byte, model interface{}) ([]byte, error) {
 	if isClosed, err := c.dataWriter.IsDataConnectionClosed(); isClosed {
-		c.CloseConnection(false, 0, "")
+		if !c.isClosing() {
+			c.CloseConnection(false, 0, "")
+		}
 		return nil, err
 	}
 
